@@ -5,6 +5,7 @@ import (
 	"os"
 	"runtime/debug"
 	"sort"
+	"strings"
 	"sync"
 	"sync/atomic"
 	"time"
@@ -68,7 +69,25 @@ func (w *World) Explore(spec *HarnessSpec, entry *ssa.Function) *HarnessResult {
 			ex.worker(id)
 		}(i)
 	}
+	doneCh := make(chan struct{})
+	go func() {
+		tk := time.NewTicker(15 * time.Second)
+		defer tk.Stop()
+		for {
+			select {
+			case <-doneCh:
+				return
+			case <-tk.C:
+				ex.mu.Lock()
+				g := &solver.Global
+				fmt.Fprintf(os.Stderr, "[gosym]   ... %s: %d paths, queue %d, active %d, ends=%v, queries=%d unknown=%d restarts=%d solver=%.0fs\n",
+					spec.Entry, ex.res.Paths, len(ex.queue), ex.active, ex.res.Ends, atomic.LoadInt64(&g.Queries), atomic.LoadInt64(&g.Unknown), atomic.LoadInt64(&g.Restarts), float64(atomic.LoadInt64(&g.TimeNanos))/1e9)
+				ex.mu.Unlock()
+			}
+		}
+	}()
 	wg.Wait()
+	close(doneCh)
 	ex.res.Seconds = time.Since(ex.started).Seconds()
 	return ex.res
 }
@@ -360,6 +379,15 @@ func (w *World) RunAll(only string) ([]*HarnessResult, error) {
 				fmt.Fprintf(os.Stderr, "[gosym]   %s: %s\n", k, v)
 			}
 		}
+		w.mu.Lock()
+		for k, v := range w.poison {
+			msg := v
+			if i := strings.Index(msg, "\n"); i > 0 && os.Getenv("GOSYM_DEBUG") == "" {
+				msg = msg[:i]
+			}
+			fmt.Fprintf(os.Stderr, "[gosym]   init poison %s: %s\n", k, msg)
+		}
+		w.mu.Unlock()
 		out = append(out, res)
 		// confirm phase for known findings seen by this harness
 		var ids []string
